@@ -32,18 +32,18 @@ open Finset SharkVerif.Loss Scalar
 
 /-! ## 0. lists of the form `(List.range n).map r` -/
 
-theorem rowOf_length (m : ℕ) (q : ℕ → ℝ) : (rowOf m q).length = m := by simp [rowOf]
+theorem rowOf_length₂ (m : ℕ) (q : ℕ → ℝ) : (rowOf m q).length = m := by simp [rowOf]
 
 theorem rowOf_getElem? (m : ℕ) (q : ℕ → ℝ) (k : ℕ) (hk : k < m) : (rowOf m q)[k]? = some (q k) := by
   unfold rowOf
   rw [List.getElem?_map, List.getElem?_range hk]; rfl
 
-theorem rowOf_getD (m : ℕ) (q : ℕ → ℝ) (k : ℕ) :
+theorem rowOf_getD₂ (m : ℕ) (q : ℕ → ℝ) (k : ℕ) :
     (rowOf m q).getD k 0 = if k < m then q k else 0 := by
   rw [List.getD_eq_getElem?_getD]
   by_cases h : k < m
   · rw [rowOf_getElem? m q k h]; simp [h]
-  · rw [List.getElem?_eq_none (by rw [rowOf_length]; omega)]; simp [h]
+  · rw [List.getElem?_eq_none (by rw [rowOf_length₂]; omega)]; simp [h]
 
 theorem rowOf_congr (m : ℕ) (q r : ℕ → ℝ) (h : ∀ k, k < m → q k = r k) : rowOf m q = rowOf m r := by
   unfold rowOf
@@ -54,7 +54,7 @@ theorem rowOf_congr (m : ℕ) (q r : ℕ → ℝ) (h : ∀ k, k < m → q k = r 
 theorem rowOf_ne_nil (m : ℕ) (q : ℕ → ℝ) (hm : 1 ≤ m) : rowOf m q ≠ [] := by
   intro e
   have := congrArg List.length e
-  rw [rowOf_length] at this
+  rw [rowOf_length₂] at this
   simp at this
   omega
 
@@ -111,19 +111,19 @@ theorem getD_zipWith_toRows {L : Type} (g : L → List ℝ → List ℝ) (d : L)
 theorem ceRow_multi_value (c m : ℕ) (hm : 2 ≤ m) (q : ℕ → ℝ) :
     ceRowEval Real.exp Real.log c (rowOf m q)
       = Real.log (∑ k ∈ range m, Real.exp (q k)) - (if c < m then q c else 0) := by
-  have hlen : ¬ (rowOf m q).length = 1 := by rw [rowOf_length]; omega
+  have hlen : ¬ (rowOf m q).length = 1 := by rw [rowOf_length₂]; omega
   unfold ceRowEval
   simp only [hlen, ↓reduceIte]
-  rw [sumL_eq_sum_real, log_sum_exp_shift _ _ (rowOf_ne_nil m q (by omega)), sum_map_rowOf, rowOf_getD]
+  rw [sumL_eq_sum_real, log_sum_exp_shift _ _ (rowOf_ne_nil m q (by omega)), sum_map_rowOf, rowOf_getD₂]
 
 theorem ceRow_multi_grad (c m : ℕ) (hm : 2 ≤ m) (q : ℕ → ℝ) (k : ℕ) (hk : k < m) :
     (ceRowEvalDerivative Real.exp Real.log c (rowOf m q)).2.getD k 0
       = Real.exp (q k) / (∑ j ∈ range m, Real.exp (q j)) - (if k = c then 1 else 0) := by
-  have hlen : ¬ (rowOf m q).length = 1 := by rw [rowOf_length]; omega
+  have hlen : ¬ (rowOf m q).length = 1 := by rw [rowOf_length₂]; omega
   unfold ceRowEvalDerivative
   simp only [hlen, ↓reduceIte]
   rw [List.getD_eq_getElem?_getD, List.getElem?_map,
-    List.getElem?_range (by simpa [rowOf_length] using hk)]
+    List.getElem?_range (by simpa [rowOf_length₂] using hk)]
   simp only [Option.map_some, Option.getD_some]
   have hg : (((rowOf m q).map fun x => Real.exp (x - maxL (rowOf m q))).map fun x =>
         x / sumL ((rowOf m q).map fun x => Real.exp (x - maxL (rowOf m q)))).getD k 0
